@@ -665,7 +665,7 @@ Proof.
   2:{ exfalso. exact (pending_of_None _ _ Ep Hip). }
   apply pending_of_In in Ep.
   destruct (Z.leb _ _).
-  - injection E as <- <- <-. destruct (deliver_inv n s i k pos (Some (fst r)) HI Ep) as [A [B C]].
+  - injection E as <- <- <-. destruct (deliver_inv n s i k pos (fst r) HI Ep) as [A [B C]].
     split; [exact A|]. split; [exact B|]. split; [discriminate|]. split; [discriminate|].
     intros x Hx [Hn|Hn]; [now apply C | discriminate].
   - injection E as <- <- <-. split; [exact HI|]. split; [apply incl_refl|]. split; [discriminate|]. split; [discriminate|auto].
